@@ -253,6 +253,62 @@ fn gen_server_caller_dies(first: &bool, ctx: &WorkerCtx) -> ExecResult {
     })
 }
 
+/// gen_event handler: echoes a call, fails on the request `fail`.
+struct EchoHandler;
+impl edp_node::gen_event::GenEventHandler for EchoHandler {
+    fn init<'a>(&'a mut self, _args: OwnedTerm) -> std::pin::Pin<Box<dyn std::future::Future<Output = edp_node::Result<()>> + Send + 'a>> { Box::pin(async { Ok(()) }) }
+    fn handle_event<'a>(&'a mut self, _e: OwnedTerm) -> std::pin::Pin<Box<dyn std::future::Future<Output = edp_node::Result<edp_node::gen_event::EventResult>> + Send + 'a>> { Box::pin(async { Ok(edp_node::gen_event::EventResult::Ok) }) }
+    fn handle_call<'a>(&'a mut self, request: OwnedTerm) -> std::pin::Pin<Box<dyn std::future::Future<Output = edp_node::Result<edp_node::gen_event::CallResult>> + Send + 'a>> {
+        Box::pin(async move {
+            if request == OwnedTerm::atom("fail") { return Err(edp_node::Error::InvalidMessage("handler refuses".into())); }
+            Ok(edp_node::gen_event::CallResult::Reply(OwnedTerm::Tuple(vec![OwnedTerm::atom("echo"), request])))
+        })
+    }
+    fn id(&self) -> OwnedTerm { OwnedTerm::atom("h") }
+}
+
+/// gen_event manager: every call gets exactly one answer (also a call to a handler that is not installed or that
+/// fails), and the manager goes on serving afterwards.
+fn gen_event_calls(order: &usize, ctx: &WorkerCtx) -> ExecResult {
+    let order = *order;
+    run_rt(async move {
+        let mut res = ExecResult::default();
+        let lw = match local_world(ctx).await { Ok(x) => x, Err(e) => { res.violations.push(("node could not start against the fake EPMD".into(), json!({"error": e}))); return res; } };
+        let log: Log = Arc::new(Mutex::new(vec![]));
+        let node = lw.node.clone();
+        lw.w.gates.set_active(&[]);
+        let pd = node.spawn(Rec { name: "pd".into(), log: log.clone() }).await.unwrap();
+        let mut mgr = edp_node::gen_event::GenEventManager::new(node.registry());
+        if mgr.add_handler(Box::new(EchoHandler), OwnedTerm::Nil).await.is_err() { res.violations.push(("handler could not be installed".into(), json!({}))); return res; }
+        let gm = node.spawn(mgr).await.unwrap();
+        let probe = { let l = log.clone(); move || l.lock().unwrap().len() as u64 };
+        // requests: (handler id, request); the expected answer to each
+        let all: [(&str, &str); 4] = [("h", "q1"), ("missing", "q2"), ("h", "fail"), ("h", "q3")];
+        let perm: Vec<usize> = match order { 0 => vec![0, 1, 2, 3], 1 => vec![1, 0, 3, 2], 2 => vec![2, 3, 1, 0], _ => vec![3, 2, 0, 1] };
+        let mut expect: Vec<String> = vec![];
+        let mut installed = true;
+        for &i in &perm {
+            let (hid, req) = all[i];
+            let r = node.make_reference();
+            let call = OwnedTerm::Tuple(vec![OwnedTerm::atom("$gen_call"), OwnedTerm::Tuple(vec![OwnedTerm::Pid(pd.clone()), OwnedTerm::Reference(r.clone())]), OwnedTerm::atom(hid), OwnedTerm::atom(req)]);
+            let sent = node.send(&gm, call).await.is_ok();
+            settle_local(&lw.w, &probe).await;
+            // a handler whose callback fails is removed (as in OTP); calls to it are answered with `error` from then on
+            let answer = if hid == "h" && req != "fail" && installed { RefVal::Tuple(vec![RefVal::atom("echo"), RefVal::atom(req)]) } else { RefVal::atom("error") };
+            if hid == "h" && req == "fail" { installed = false; }
+            expect.push(format!("msg:{}", RefVal::Tuple(vec![den_ref(&r), answer])));
+            if !sent { res.violations.push(("the event manager no longer accepts messages".into(), json!({"after_calls": expect.len() - 1}))); break; }
+        }
+        let got: Vec<String> = log.lock().unwrap().iter().filter(|x| x.0 == "pd").map(|x| x.1.clone()).collect();
+        if got != expect {
+            res.violations.push(("gen_event call not answered exactly once to its caller".into(), json!({"calls": perm.iter().map(|&i| format!("{}:{}", all[i].0, all[i].1)).collect::<Vec<_>>(), "received": got, "expected": expect})));
+        }
+        res.steps = 4;
+        res.outcome = format!("gen_event order {} got {}", order, got.len());
+        res
+    })
+}
+
 fn concurrent(ch: &mut Chooser, ctx: &WorkerCtx, scenario: usize) -> ExecResult {
     run_rt(async move {
         let mut res = ExecResult::default();
@@ -422,6 +478,8 @@ pub fn run(rep: &Report) -> Value {
         frontier = next;
     }
     let seq_stats: Stats = for_all(rep, "sequential histories", &cases, |c, ctx| run_sequence(c, ctx));
+    let ge = [0usize, 1, 2, 3];
+    let ge_stats: Stats = for_all(rep, "gen_event calls to installed, missing and failing handlers", &ge, |c, ctx| gen_event_calls(c, ctx));
     let gsd = [false, true];
     let gs_stats: Stats = for_all(rep, "gen_server caller terminates while its call is being handled", &gsd, |c, ctx| gen_server_caller_dies(c, ctx));
     let mut conc: Vec<(String, Stats)> = vec![];
@@ -431,7 +489,7 @@ pub fn run(rep: &Report) -> Value {
         let st = explore(rep, n, bound, std::time::Duration::from_secs(if thorough { 300 } else { 20 }), |ch, ctx| concurrent(ch, ctx, i));
         conc.push((n.to_string(), st));
     }
-    let states = seq_stats.executions + gs_stats.executions + conc.iter().map(|c| c.1.executions).sum::<u64>();
+    let states = seq_stats.executions + gs_stats.executions + ge_stats.executions + conc.iter().map(|c| c.1.executions).sum::<u64>();
     let transitions = seq_stats.transitions + conc.iter().map(|c| c.1.transitions).sum::<u64>();
     let mut samples = vec![json!({"sequential_history": format!("{:?}", cases[cases.len() / 3])}), json!({"sequential_history": format!("{:?}", cases[cases.len() - 11])})];
     for c in &conc { samples.extend(c.1.samples.iter().take(1).cloned()); }
